@@ -499,6 +499,16 @@ def check_leaves(ctx, tree, m, n, what):
     got = tree.root.get_leaves()
     if len(got) != n or {id(x) for x in got} != {id(x.ref) for x in ml}:
         ctx.fail("leaves_are_range_n", "%s: get_leaves() is not the set of leaves reachable over children" % what)
+    # the lists handed out are the caller's: changing them must not change the tree
+    if n >= 2:
+        ctx.oracle("returned_lists_are_copies")
+        lv.reverse()
+        lv.pop()
+        got.clear()
+        lv2 = tree.leaves
+        if len(tree) != n or len(lv2) != n or any(lv2[i] is not by_index[i] for i in range(n)) \
+                or tree.root.get_leaf_count() != n or len(tree.root.get_leaves()) != n:
+            ctx.fail("returned_lists_are_copies", "%s: editing the list returned by tree.leaves / get_leaves() changed the tree" % what)
 
 
 # =====================================================================
